@@ -88,7 +88,10 @@ def t_cfg(b, e):
 def c20(b):
     t, i, e = first(b["traces"], lambda e: e.get("e") == "registered" and len(e["disk"]) >= 2); e["disk"][-1][-1] = "tampered"
 def gemap(b):
-    t, i, e = first(b["traces"], lambda e: e.get("e") == "gemap" and not e["exc"] and len(e["genes"]) > 1 and e["prog"]["kids"]); e["genes"][1] += 1
+    # shift every gene of every mapping of one grammar by one: some draw among them changes its outcome
+    t = [x for x in b["traces"] if x["id"] == "arith"][0]
+    for e in t["events"]:
+        e["genes"] = [x + 1 for x in e["genes"]]
 def derive(b):
     t, i, e = first(b["traces"], lambda e: e.get("e") == "derivation" and e["decisions"]); e["decisions"][-1]["c"] += 1
 
